@@ -59,7 +59,7 @@ GList *nice_interfaces_get_local_interfaces (void) { return NULL; }
 gchar *nice_interfaces_get_ip_for_interface (gchar *n) { return NULL; }
 guint nice_interfaces_get_if_index_by_addr (NiceAddress *a) { return 0; }
 gboolean nice_interfaces_is_private_ip (const struct sockaddr *sa) { return TRUE; }
-static int trace_pkts = 1; static int srv_loss;
+static int trace_pkts = 1; static int srv_loss; static NiceAddress nat_priv[8], nat_pub[8]; static int n_nat;
 
 static VSock *vsock_find (const NiceAddress *a)
 {
@@ -170,9 +170,20 @@ static void net_send (const NiceAddress *from, const NiceAddress *to, const guin
       }
     }
   }
+  /* 1:1 port-preserving full-cone NAT: the source of a packet leaving a NATed host is rewritten to its public address, a packet to
+   * the public address is forwarded to the host, and the private address itself is not routable from outside */
+  NiceAddress wfrom = *from, dto = *to; int natted = 0;
+  for (int i = 0; i < n_nat; i++) {
+    if (nice_address_equal_no_port (from, &nat_priv[i])) { guint pt = nice_address_get_port (from); wfrom = nat_pub[i]; nice_address_set_port (&wfrom, pt); natted = 1; }
+  }
+  for (int i = 0; i < n_nat; i++) {
+    if (nice_address_equal_no_port (to, &nat_pub[i])) { guint pt = nice_address_get_port (to); dto = nat_priv[i]; nice_address_set_port (&dto, pt); }
+    else if (nice_address_equal_no_port (to, &nat_priv[i]) && !nice_address_equal_no_port (from, &nat_priv[i]) && copies) { fate = "nat-unroutable"; copies = 0; }
+  }
+  if (natted) addr_s (&wfrom, fa);
   if (trace_pkts) T ("pkt %s %s %s %s", fa, ta, fate, sum);
   for (int c = 0; c < copies; c++) {
-    VPkt *p = g_new0 (VPkt, 1); p->from = *from; p->to = *to; p->data = g_memdup2 (d, n ? n : 1); p->len = n; p->serial = pkt_serial++;
+    VPkt *p = g_new0 (VPkt, 1); p->from = wfrom; p->to = dto; p->data = g_memdup2 (d, n ? n : 1); p->len = n; p->serial = pkt_serial++;
     p->due_us = vnow_us + d_min_us + (d_max_us > d_min_us ? (long) (rndf () * (d_max_us - d_min_us)) : 0);
     inflight = g_list_append (inflight, p);
   }
@@ -434,6 +445,7 @@ static void do_op (char *op)
   else if (!strcmp (a[0], "hole")) { /* hole,ipA,ipB,on|off  (directional) */ char k[200]; sprintf (k, "%s>%s", a[1], a[2]); if (!strcmp (a[3], "on")) g_hash_table_insert (blackhole, g_strdup (k), GINT_TO_POINTER (1)); else g_hash_table_remove (blackhole, k); T ("net hole %s %s", k, a[3]); }
   else if (!strcmp (a[0], "server")) { Server *sv2 = &servers[nservers++]; sv2->addr = mkaddr (a[1], I (2)); strncpy (sv2->mode, a[3], 31); sv2->count = 0; T ("net server %s:%s %s", a[1], a[2], a[3]); }
   else if (!strcmp (a[0], "srvloss")) srv_loss = I (1);
+  else if (!strcmp (a[0], "nat")) { if (n_nat < 8) { nat_priv[n_nat] = mkaddr (a[1], 0); nat_pub[n_nat] = mkaddr (a[2], 0); n_nat++; T ("net nat %s %s", a[1], a[2]); } }
   else if (!strcmp (a[0], "servermode")) { strncpy (servers[I (1)].mode, a[2], 31); }
   else if (!strcmp (a[0], "stun")) { g_object_set (A[I (1)].agent, "stun-server", a[2], "stun-server-port", (guint) I (3), NULL); T ("api %d stun-server %s:%s", I (1), a[2], a[3]); }
   else if (!strcmp (a[0], "relay")) { gboolean r = nice_agent_set_relay_info (A[I (1)].agent, I (2), I (3), a[4], I (5), "user", "pass", NICE_RELAY_TYPE_TURN_UDP); T ("api %d set_relay_info %d %d %s:%s =%d", I (1), I (2), I (3), a[4], a[5], r); }
@@ -485,6 +497,20 @@ static void do_op (char *op)
   else if (!strcmp (a[0], "attacker")) { /* attacker,period_ms(0=off),kind mask */ atk_period_us = I (1) * 1000LL; atk_next_us = atk_period_us ? vnow_us + atk_period_us : G_MAXINT64; atk_mask = n > 2 ? (unsigned) atoi (a[2]) : ~0u; atk_s = rng_s * 0x2545F4914F6CDD1DULL | 1; }
   else if (!strcmp (a[0], "sdpgen")) { int i = I (1); g_free (last_sdp[i]); last_sdp[i] = nice_agent_generate_local_sdp (A[i].agent); T ("api %d generate_local_sdp len=%zu", i, last_sdp[i] ? strlen (last_sdp[i]) : 0); }
   else if (!strcmp (a[0], "sdpparse")) { int i = I (1), j = I (2); int r = last_sdp[j] ? nice_agent_parse_remote_sdp (A[i].agent, last_sdp[j]) : -99; T ("api %d parse_remote_sdp from=%d =%d", i, j, r); }
+  else if (!strcmp (a[0], "sdpbad")) { /* sdpbad,i,j,variant : agent j's last SDP, damaged, parsed by agent i (whole-session and per-stream parsers) */
+    int i = I (1), j = I (2), v = I (3);
+    if (last_sdp[j]) { GString *g = g_string_new (last_sdp[j]);
+      switch (v % 6) {
+        case 0: g_string_append (g, "a=candidate:1 1 UDP 2015363327 10.0.9.9 9 typ host\na=candidate:garbage\n"); break;
+        case 1: g_string_append (g, "a=candidate:1 1 UDP 2015363327 10.0.9.9 9 typ host\na=candidate:2 1 UDP notanumber 10.0.9.8 9 typ host\n"); break;
+        case 2: g_string_truncate (g, g->len > 17 ? g->len - 17 : 0); break;
+        case 3: g_string_append (g, "a=candidate:3 1 UDP 2015363327 10.0.9.9 9 typ host\na=candidate:4 1 UDP 1 999.1.1.1 9 typ host\n"); break;
+        case 4: g_string_append (g, "m=audio 0 ICE/SDP\na=ice-ufrag:\na=candidate:5 7 UDP 1 10.0.9.9 9 typ srflx raddr\n"); break;
+        default: g_string_append (g, "a=candidate:6 1 TCP 1 10.0.9.9 9 typ host tcptype\n"); break; }
+      int r = nice_agent_parse_remote_sdp (A[i].agent, g->str); gchar *uf = NULL, *pw = NULL;
+      GSList *l = nice_agent_parse_remote_stream_sdp (A[i].agent, 1, g->str, &uf, &pw);
+      T ("api %d parse_damaged_sdp from=%d v=%d =%d n=%u", i, j, v % 6, r, g_slist_length (l));
+      g_slist_free_full (l, (GDestroyNotify) nice_candidate_free); g_free (uf); g_free (pw); g_string_free (g, TRUE); } }
   else if (!strcmp (a[0], "detach")) { gboolean r = nice_agent_attach_recv (A[I (1)].agent, I (2), I (3), ctx, NULL, NULL); T ("api %d detach_recv %d %d =%d", I (1), I (2), I (3), r); }
   else if (!strcmp (a[0], "attach")) { gboolean r = nice_agent_attach_recv (A[I (1)].agent, I (2), I (3), ctx, cb_recv, &A[I (1)]); T ("api %d attach_recv %d %d =%d", I (1), I (2), I (3), r); }
   else if (!strcmp (a[0], "setremote")) { GSList *r = nice_agent_get_remote_candidates (A[I (1)].agent, I (2), I (3)); gboolean ok = FALSE; if (r) ok = nice_agent_set_selected_remote_candidate (A[I (1)].agent, I (2), I (3), r->data);
@@ -512,7 +538,7 @@ static int run_case (char *line)
     ctx = g_main_context_new (); g_main_context_push_thread_default (ctx); vsocks = g_ptr_array_new (); inflight = NULL; pkt_serial = 0; next_port = 40000; nagents = 0; nservers = 0; memset (A, 0, sizeof A);
     consec = g_hash_table_new_full (g_str_hash, g_str_equal, g_free, NULL); resp_tokens = g_hash_table_new_full (g_str_hash, g_str_equal, g_free, NULL); blackhole = g_hash_table_new_full (g_str_hash, g_str_equal, g_free, NULL);
     for (int i = 0; i < n_vif; i++) g_free (vif[i]); n_vif = 0;
-    atk_period_us = 0; atk_next_us = G_MAXINT64; reqlog_n = 0; srv_loss = 0; for (int i = 0; i < MAXA; i++) { g_free (last_sdp[i]); last_sdp[i] = NULL; } for (int i = 0; i < 4; i++) { g_free (old_ufrag[i]); g_free (old_pwd[i]); old_ufrag[i] = old_pwd[i] = NULL; }
+    atk_period_us = 0; atk_next_us = G_MAXINT64; reqlog_n = 0; srv_loss = 0; n_nat = 0; for (int i = 0; i < MAXA; i++) { g_free (last_sdp[i]); last_sdp[i] = NULL; } for (int i = 0; i < 4; i++) { g_free (old_ufrag[i]); g_free (old_pwd[i]); old_ufrag[i] = old_pwd[i] = NULL; }
     p_drop = p_dup = 0; d_min_us = d_max_us = 1000; max_consec_loss = 2; vnow_us = 1000000000LL; dispatch_count = 0; trace_pkts = 1; spinning = 0;
     fprintf (hc_out, "%s", id);
     char *op; int aborted = 0;
